@@ -15,6 +15,7 @@
 //   libFuzzer  (-DVERIF_LIBFUZZER) bytes -> tape
 #pragma once
 #include <cstdint>
+#include <setjmp.h>
 #include <cstdio>
 #include <cstdlib>
 #include <cstring>
@@ -39,6 +40,19 @@ namespace verif {
 struct Fail {            // oracle says no
 	std::string prop, msg;
 };
+// see frg_panic() below and guarded()
+inline thread_local sigjmp_buf *g_panic_jmp = nullptr;
+inline thread_local const char *g_panic_msg = nullptr;
+// runs f(); returns 1 if it ended in the assertion hook (frames between the hook and here are abandoned, not unwound), 0 if it returned
+// (2: a callback of the harness - a sink that has seen enough output - left through leave_guarded())
+template<typename F> __attribute__((noinline)) int guarded(F &&f) {
+	sigjmp_buf jb; sigjmp_buf *prev = g_panic_jmp;
+	int how = sigsetjmp(jb, 0);
+	if(how == 0) { g_panic_jmp = &jb; f(); g_panic_jmp = prev; return 0; }
+	g_panic_jmp = prev; return how;
+}
+inline bool in_guarded() { return g_panic_jmp != nullptr; }
+[[noreturn]] inline void leave_guarded() { siglongjmp(*g_panic_jmp, 2); }
 struct Panic {           // frg_panic (FRG_ASSERT) fired
 	std::string msg;
 };
@@ -198,7 +212,12 @@ extern "C" int verif_rc_search(uint64_t seed, int max_success, int max_size, int
 // frigg's assertion hook: throw, so that the engine regains control. (macros.hpp declares the
 // hook weak; it has to be seen before the definition.)
 #include <frg/macros.hpp>
-extern "C" void frg_panic(const char *cstring) { throw verif::Panic{cstring}; }
+// Inside verif::guarded() the hook leaves with siglongjmp instead: a library function that is declared noexcept would turn the
+// exception into std::terminate, although stopping in the assertion hook is a regular outcome there (parsers on malformed input).
+extern "C" void frg_panic(const char *cstring) {
+	if(verif::g_panic_jmp) { verif::g_panic_msg = cstring; siglongjmp(*verif::g_panic_jmp, 1); }
+	throw verif::Panic{cstring};
+}
 extern "C" void frg_log(const char *) {}
 
 extern "C" void __asan_set_error_report_callback(void (*)(const char *)) __attribute__((weak));
@@ -345,7 +364,9 @@ inline Outcome run_one(const uint32_t *p, size_t n) {
 	} catch(std::exception &e) {
 		o.code = 1; o.prop = cfg.focus; o.msg = std::string("unexpected exception: ") + e.what();
 	}
-	if(o.code == 0 && (san().asan || san().ubsan || __atomic_load_n(&g_tsan_reports, __ATOMIC_RELAXED))) {
+	// (also for a discarded case: a sanitizer report that was printed before the case gave up - e.g. before a sink had seen enough output -
+	// is a failure of the case all the same)
+	if((o.code == 0 || o.code == 2) && (san().asan || san().ubsan || __atomic_load_n(&g_tsan_reports, __ATOMIC_RELAXED))) {
 		try { c.check_san(cfg.focus.c_str()); } catch(Fail &f) { o.code = 1; o.prop = f.prop; o.msg = f.msg; }
 	}
 	c.drop_arena();
